@@ -321,15 +321,31 @@ def main():
             ck.violation(f"C03/seed-independent-collision/decoded-{fam}", f"distinct states ({fam}) collide under every seed", {"case": {"s": s, "t": t, "n": n, "w": w, "seeds": seeds}})
     # when a mixing step is not invertible, build the witness that step implies and try it on the implementation
     if ir is not None and not mix_ok:
-        for s in ir["steps"]:
+        for si, s in enumerate(ir["steps"]):
             x = rng.getrandbits(64)
+            prefix = ir["steps"][:si]
+            y = mix_py(prefix, x)  # value entering the non-invertible step
             if s[0] == "arith":
-                pair = ([x, 5], [x ^ M64, 5])
+                y2 = y ^ M64
+            elif s[0] == "masked" and s[2] != (1 << (64 - s[1])) - 1:
+                y2 = None
+                for _ in range(2000):  # a masked shift that is not the logical one: look for two inputs of the step that collide
+                    a, b = rng.getrandbits(64), rng.getrandbits(64)
+                    if a != b and mix_py([s], a) == mix_py([s], b):
+                        y, y2 = a, b
+                        break
+                if y2 is None:
+                    continue
             elif s[0] == "mul" and s[1] % 2 == 0:
                 v2 = (s[1] & -s[1]).bit_length() - 1
-                pair = ([x, 5], [(x + (1 << (64 - v2))) & M64, 5])
+                y2 = (y + (1 << (64 - v2))) & M64
             else:
                 continue
+            # pull both values back through the (invertible) steps before it
+            x1, x2 = unmix_py(prefix, y), unmix_py(prefix, y2)
+            if x1 is None or x2 is None or x1 == x2:
+                continue
+            pair = ([x1, 5], [x2, 5])
             if pair_collides_all_seeds("encoded", 64, 2, pair[0], pair[1], seeds):
                 ck.violation("C03/seed-independent-collision/non-invertible-mix-step", f"witness implied by non-invertible step {s} collides under every seed", {"case": {"a": pair[0], "b": pair[1], "n": 64, "w": 2, "seeds": seeds}})
     ck.assumptions = [
@@ -343,4 +359,6 @@ def main():
 
 
 if __name__ == "__main__":
-    main()
+    from cv.core import run_main
+
+    run_main(main)
